@@ -36,6 +36,12 @@ pub trait CoordNum: Copy + PartialEq + PartialOrd
             a.eq_spec(&b) == (a.val() == b.val()),
             a.partial_cmp_spec(&b) == Some(int_cmp(a.val(), b.val())),
     ;
+    /// quantified form of ax_cmp (instantiated by the comparison terms of the verification condition)
+    proof fn ax_order()
+        ensures
+            forall|a: Self, b: Self| #![trigger a.partial_cmp_spec(&b)] a.partial_cmp_spec(&b) == Some(int_cmp(a.val(), b.val())),
+            forall|a: Self, b: Self| #![trigger a.eq_spec(&b)] a.eq_spec(&b) == (a.val() == b.val()),
+    ;
     /// exact ring operations (quantified: instantiated by the operator terms of the verification condition)
     proof fn ax_ring()
         ensures
